@@ -23,8 +23,8 @@ PROP = {
             "Families: every variant x context x type as a single attempt (plus a joined-input rendering); every ordered pair of kinds on every type; every ordered "
             "triple of the 14 core kinds on int/large array/large map (thorough: of all 21 kinds on all types, and every 4-sequence of the core kinds); random "
             "sequences of <= 3 (thorough <= 4) attempts with random variant, context, type, name and partition of the attempts over inputs (4 partitions incl. one "
-            "input and a function body). Statement: in every configuration, from the first dump of the globals binding a constant N, every later dump binds N to "
-            "the same typed value, until an input whose syntax tree contains del(N); a read probe evaluates to that value or to an error. A difference from the "
+            "input and a function body). Second family (consts2.go): the constant is a LOCAL of a function call - bound by =, by :=, as a parameter (named function, lambda), as a local of an enclosing function - and attacked from the same scope, from nested functions, loops and closures returned by inner factories, with every non-del kind and variant x 8 binding forms x every value type (quick: about half, drawn), plus 300 (thorough 6000) random sequences of 2-3 attempts; input 0 binds the top-level constant REF9 to the same literal and the inputs `lc9()` are LOCAL PROBES. Statement: in every configuration, from the first dump of the globals binding a constant N, every later dump binds N to "
+            "the same typed value, until an input whose syntax tree contains del(N); a read probe evaluates to that value or to an error; a local probe `lc9()` evaluates to REF9's value or to an error. A difference from the "
             "model counts as a listed class only if the model executed, during the first differing input, an index assignment / map set / delete on a LARGE container "
             "through a NON-constant name. non-trivial = at least one input parses; distinct = distinct case line.",
     "trusted_base": EVAL_TB + ["C19 theorems are about the evaluator model (lean/Grol/Eval/*.lean): the environment layer (= object/state.go), the four non-recursive "
